@@ -23,7 +23,7 @@ RULE = ("API histories of 6-22 calls over a growing pool (<= ~25 arrays of shape
         "repeats, rechunk}, compute {1-3 arrays, optimize on/off, resume on/off, method/function, default / single-threaded / "
         "threads executor; 1/3 of them re-request an earlier-computed array together with its (possibly never written) ancestors, mostly with resume}, store/to_zarr {1-2 pairs, eager/lazy, lazy and non-lazy sources}, plan / visualize / default-executor "
         "change; 1/3 of the correspondence histories and 1/8 of the oracle histories may store a lazy array that already has "
-        "dependants (the known defect), plus a fixed corpus of 12 resume-over-shared-sub-graph histories and the 2 defect witnesses; the rest satisfy the hypothesis of C10_partial; non-trivial = history with at least one "
+        "dependants (the known defect), plus a fixed corpus (run first) of 13 branching-graph resume histories (one branch computed with its shared intermediate fused away, a sibling derived, both / a combination computed with resume, optimize on/off, single-threaded/threads) and 12 resume-over-shared-sub-graph histories; 30% of the random computes are such sibling bursts and the 2 defect witnesses; the rest satisfy the hypothesis of C10_partial; non-trivial = history with at least one "
         "compute over a derived array and one store; distinct by request text")
 ASSUMPTIONS = [
     "C10_partial hypothesis NoLate: no call stores (store/to_zarr, lazy-source branch of _store_array) a lazy array from which another array was already derived — decidable, evaluated along the history; its failure on the unchanged code is the KNOWN finding",
@@ -188,8 +188,8 @@ def new_state(ctx):
 # ----------------------------------------------------------------------------------------------
 
 def corr(ctx):
-    n = ctx.budget(36, 300)
-    hists = [copy.deepcopy(H.WITNESS_LATE), copy.deepcopy(H.WITNESS_TWICE)] + copy.deepcopy(H.RESUME_CORPUS)
+    n = ctx.budget(30, 300)
+    hists = [copy.deepcopy(H.WITNESS_LATE), copy.deepcopy(H.WITNESS_TWICE)] + copy.deepcopy(H.BRANCH_CORPUS) + copy.deepcopy(H.RESUME_CORPUS)
     for i in range(n):
         hists.append(H.gen_history(ctx.rng, ctx.rng.randint(6, 22), unsafe=(i % 3 == 0)))
     runs = [H.run_history(h) for h in hists]
@@ -212,9 +212,9 @@ def corr(ctx):
 
 def oracle(ctx, n=None, seed_shift=0):
     state = new_state(ctx)
-    n = n if n is not None else ctx.budget(24, 240)
+    n = n if n is not None else ctx.budget(20, 240)
     # the two minimal triggers of the known defect are re-verified on every run
-    fixed = ([copy.deepcopy(H.WITNESS_LATE), copy.deepcopy(H.WITNESS_TWICE)] + copy.deepcopy(H.RESUME_CORPUS)) if seed_shift == 0 else []
+    fixed = ([copy.deepcopy(H.WITNESS_LATE), copy.deepcopy(H.WITNESS_TWICE)] + copy.deepcopy(H.BRANCH_CORPUS) + copy.deepcopy(H.RESUME_CORPUS)) if seed_shift == 0 else []
     hists = list(fixed)
     for i in range(n):
         hists.append(H.gen_history(ctx.rng, ctx.rng.randint(8, 22), unsafe=(i % 8 == 7)))
